@@ -416,7 +416,7 @@ def family(tier):
     q = tier == "quick"
     base = list(F.undirected([1, 2, 3], 3)) + list(F.undirected([1, 2, 3, 4], 2, min_edges=1))
     if not q:
-        base = list(F.undirected([1, 2, 3, 4], 3))
+        base = list(F.undirected([1, 2, 3, 4], 3)) + list(F.undirected([1, 2, 3, 4, 5], 2, min_edges=2))
     items = []
     for k, s in enumerate(base):
         items.append(("H", s))
